@@ -42,8 +42,9 @@ EXTENDS Naturals, Sequences, FiniteSets
 
 CONSTANTS Calls, MaxLen, Dev
 
-VARIABLES hist, res, residue
-svars == <<hist, res, residue>>
+\* overlap: the positions p such that the calls hist[p] and hist[p+1] ran at the same time (in two goroutines)
+VARIABLES hist, res, residue, overlap
+svars == <<hist, res, residue, overlap>>
 
 Has(c, tok) == \E i \in 1..Len(c.opts) : c.opts[i] = tok
 IsText(c)   == c.op = "output" /\ ~Has(c, "json") /\ ~Has(c, "yaml") /\ ~Has(c, "toml") /\ ~Has(c, "dry")
@@ -72,15 +73,27 @@ Disturbs(rs, c) ==
 
 Result(c, rs) == IF Disturbs(rs, c) THEN <<"disturbed", c, rs>> ELSE Alone(c)
 
-Init == hist = <<>> /\ res = <<>> /\ residue = {}
+Init == hist = <<>> /\ res = <<>> /\ residue = {} /\ overlap = {}
 
 Call(c) ==
   /\ Len(hist) < MaxLen
   /\ hist' = Append(hist, c)
   /\ res' = Append(res, Result(c, residue))
   /\ residue' = residue \cup Leaves(c)
+  /\ UNCHANGED overlap
 
-Next == \E c \in Calls : Call(c)
+\* two calls at the same time, in two goroutines of the process ("or concurrently in other goroutines"; "independent
+\* From-Markdown calls running concurrently"): each may meet what the other leaves behind while it is still running.
+\* (The bounded model lets a session START with such a pair.)
+CallPair(c1, c2) ==
+  /\ hist = <<>> /\ MaxLen >= 2
+  /\ hist' = <<c1, c2>>
+  /\ res' = <<Result(c1, residue \cup Leaves(c2)), Result(c2, residue \cup Leaves(c1))>>
+  /\ residue' = residue \cup Leaves(c1) \cup Leaves(c2)
+  /\ overlap' = {1}
+
+Next == \/ \E c \in Calls : Call(c)
+        \/ \E c1, c2 \in Calls : CallPair(c1, c2)
 Spec == Init /\ [][Next]_svars
 
 \* every call of every session gives the result it gives alone
